@@ -152,6 +152,18 @@ class SeqV:
         return f"SeqV({self.term})"
 
 
+class UFunc:
+    """an uninterpreted real function passed as an argument (objective functions, callbacks)"""
+
+    def __init__(self, name, arity=1):
+        self.name, self.arity = name, arity
+        self.f = z3.Function(name, *([z3.RealSort()] * (arity + 1)))
+        self.calls = []
+
+    def __call__(self, *xs):
+        return self.f(*xs)
+
+
 class Opaque:
     """a value we do not interpret (message strings, exception objects, modules)"""
 
@@ -541,6 +553,8 @@ def fresh(ctx: Ctx, t: T, name):
         return SeqV(z3.Const(ctx.fresh_name(name), z3.SeqSort(w.sort_of(t.args[0]))), t.args[0], t.kw.get("tuple", False))
     if t.kind == "const":
         return t.args[0]
+    if t.kind == "ufunc":
+        return UFunc(t.args[0], t.args[1] if len(t.args) > 1 else 1)
     if t.kind == "classref":
         return FuncRef("class", t.args[0], w.classes[t.args[0]])
     raise Unsupp(f"fresh value of type {t}")
@@ -552,6 +566,8 @@ def concretize(world, v, model):
         return v
     if isinstance(v, FuncRef):
         return {"__classref__": v.name}
+    if isinstance(v, UFunc):
+        return {"__ufunc__": v.name}
     if isinstance(v, FloatV):
         r = model.eval(v.t, model_completion=True)
         try:
